@@ -37,7 +37,7 @@ def ds_of_item(item):
 
 def traverse(group):
     out = []
-    for name in sorted(group.keys(), key=lambda s: s.encode("utf-8")):
+    for name in group.keys():          # h5py's own iteration order (what the library's reader sees)
         item = group.get(name, getlink=False)
         if isinstance(item, h5py.Group):
             out.append([name, {"g": traverse(item)}])
